@@ -43,7 +43,7 @@ let show status evs (s: st) =
    chosen contract): its shortest history followed by that op.  Used by lib/props/C12.py as generator. *)
 let alphabet = [ "CONNECT", Connect; "DISCONNECT", Disconnect; "STOP", Stop; "RETRY", EnableRetry; "DESTROY", Destroy;
   "XCF", XConnectFlags; "XCE", XConnectEnq; "XSF", XStopFlags; "XSE", XStopEnq; "XDF", XDisconnectFlag; "XDR", XDisconnectRest;
-  "XYR", XDestroyRead; "XYD", XDestroyRest;
+  "XYR", XDestroyRead; "XYD", XDestroyRest; "EVWY", XDestroyInWrite;
   "CR ECONNREFUSED", ConnectResult (z_of_int 111); "CR EACCES", ConnectResult (z_of_int 13); "CR 0", ConnectResult (z_of_int 0);
   "EVW 0 0", EvWritable (z_of_int 0, false); "EVW ECONNREFUSED 0", EvWritable (z_of_int 111, false); "EVW 0 1", EvWritable (z_of_int 0, true);
   "EVE", EvError; "TF", TimerFire; "RUN", RunPending; "RUN1", RunOne; "DOWN", Down; "HOLD", UserHold; "REL", UserRelease ]
@@ -85,7 +85,7 @@ let pick profile =
     | 3 -> (* destruction at every point, user references *)
       [ 4, `CONNECT; 5, `EVW0; 5, `RUN; 3, `DOWN; 4, `DESTROY; 3, `HOLD; 3, `REL; 2, `TF; 2, `CRr; 1, `EVE; 1, `STOP; 1, `DISCONNECT; 1, `RETRY; 2, `RUN1 ]
     | 4 -> (* foreign threads *)
-      [ 3, `XCF; 4, `XCE; 3, `XSF; 4, `XSE; 3, `XDF; 4, `XDR; 2, `XYR; 3, `XYD; 4, `EVW0; 5, `RUN; 3, `RUN1; 2, `DOWN; 2, `TF; 2, `CRr; 1, `RETRY; 1, `CONNECT; 1, `EVWe ]
+      [ 3, `XCF; 4, `XCE; 3, `XSF; 4, `XSE; 3, `XDF; 4, `XDR; 2, `XYR; 3, `XYD; 1, `EVWY; 4, `EVW0; 5, `RUN; 3, `RUN1; 2, `DOWN; 2, `TF; 2, `CRr; 1, `RETRY; 1, `CONNECT; 1, `EVWe ]
     | _ ->
       [ 3, `CONNECT; 2, `DISCONNECT; 2, `STOP; 1, `RETRY; 1, `DESTROY; 1, `XCF; 1, `XCE; 1, `XSF; 1, `XSE; 1, `XDF; 1, `XDR; 1, `XYR; 1, `XYD;
         2, `CRr; 1, `CRany; 3, `EVW0; 2, `EVWe; 1, `EVWs; 1, `EVE; 3, `TF; 4, `RUN; 1, `RUN1; 2, `DOWN; 1, `HOLD; 1, `REL ] in
@@ -97,7 +97,7 @@ let pick profile =
   | `CONNECT -> "CONNECT", Connect | `DISCONNECT -> "DISCONNECT", Disconnect | `STOP -> "STOP", Stop | `RETRY -> "RETRY", EnableRetry
   | `DESTROY -> "DESTROY", Destroy | `XCF -> "XCF", XConnectFlags | `XCE -> "XCE", XConnectEnq | `XSF -> "XSF", XStopFlags
   | `XSE -> "XSE", XStopEnq | `XDF -> "XDF", XDisconnectFlag | `XDR -> "XDR", XDisconnectRest | `XYR -> "XYR", XDestroyRead
-  | `XYD -> "XYD", XDestroyRest | `EVE -> "EVE", EvError | `TF -> "TF", TimerFire | `RUN -> "RUN", RunPending | `RUN1 -> "RUN1", RunOne
+  | `XYD -> "XYD", XDestroyRest | `EVWY -> "EVWY", XDestroyInWrite | `EVE -> "EVE", EvError | `TF -> "TF", TimerFire | `RUN -> "RUN", RunPending | `RUN1 -> "RUN1", RunOne
   | `DOWN -> "DOWN", Down | `HOLD -> "HOLD", UserHold | `REL -> "REL", UserRelease
   | `EVW0 -> "EVW 0 0", EvWritable (z_of_int 0, false)
   | `EVWs -> "EVW 0 1", EvWritable (z_of_int 0, true)
@@ -137,7 +137,7 @@ let run_cases () =
         | ["CONNECT"] -> Connect | ["DISCONNECT"] -> Disconnect | ["STOP"] -> Stop | ["RETRY"] -> EnableRetry
         | ["DESTROY"] -> Destroy
         | ["XCF"] -> XConnectFlags | ["XCE"] -> XConnectEnq | ["XSF"] -> XStopFlags | ["XSE"] -> XStopEnq
-        | ["XDF"] -> XDisconnectFlag | ["XDR"] -> XDisconnectRest | ["XYR"] -> XDestroyRead | ["XYD"] -> XDestroyRest
+        | ["XDF"] -> XDisconnectFlag | ["XDR"] -> XDisconnectRest | ["XYR"] -> XDestroyRead | ["XYD"] -> XDestroyRest | ["EVWY"] -> XDestroyInWrite
         | ["CR"; e] -> ConnectResult (z_of_int (errno_of e))
         | ["EVW"; e; sc] -> EvWritable (z_of_int (errno_of e), sc = "1")
         | ["EVE"] -> EvError | ["TF"] -> TimerFire | ["RUN"] -> RunPending | ["RUN1"] -> RunOne
